@@ -54,6 +54,11 @@ def b_stress(ch):
     d.add_surface(12, 'p', [1.0, 0.0, 0.0, 1.0])          # the plane x=1 once more, as a general plane
     d.add_surface(9, 'kx', [0.0, 1.0, 1]); d.add_surface(10, 'kx', [0.0, 1.0, -1])
     d.add_surface(11, 'so', [6.0])
+    # quadrics written with a small overall scale factor: coefficients differ only below 1e-6 although the loci
+    # (cylinders of radius 3 and 5) are far apart
+    d.add_surface(13, 'gq', [1e-8, 1e-8, 0, 0, 0, 0, 0, 0, 0, -9e-8])
+    d.add_surface(14, 'gq', [1e-8, 1e-8, 0, 0, 0, 0, 0, 0, 0, -25e-8])
+    d.add_surface(15, 'px', [1.0000001])               # 1e-7 away from surfaces 1 and 2
     m7 = refsem.Motion((0, 0, 0), refsem.rotation([1, 0, 0], 30.0).T)
     m8 = refsem.Motion((0, 0, 0), refsem.rotation([0, 1, 0], 30.0).T)
     tor = refsem.mcnp_surface('tz', [0.0, 0.0, 0.0, 3.0, 1.0, 1.0])
@@ -66,6 +71,7 @@ def b_stress(ch):
         # unions with a member that is empty only after de-duplication (gap between two numbers of one plane)
         'R9': (':', ('*', -1, ('*', -4, 5)), ('*', 2, -12)),
         'R10': (':', ('*', 12, -1), (':', ('*', 1, ('*', 4, -5)), ('*', 2, -1))),
+        'R11': ('*', 13, -14), 'R12': ('*', -13, 5), 'R13': ('*', 15, ('*', -3, -4)),
     }
     order = ch.choose('regions', [
         ['R1', 'R2', 'R3', 'R4', 'R5', 'R6', 'R7', 'R8'],
@@ -76,6 +82,8 @@ def b_stress(ch):
         ['R2b', 'R7', 'R1', 'R5'],
         ['R9', 'R10', 'R3'],
         ['R10', 'R9', 'R7', 'R5'],
+        ['R11', 'R12', 'R1'],
+        ['R12', 'R13', 'R11', 'R2'],
     ])
     prev = []
     mats = [(1, '-2.7'), (2, '-1.0'), (0, None), (1, '-2.70')]
